@@ -403,7 +403,64 @@ def r12_definition_sites_are_recorded(ctx):
     ctx.floor('C02.R12', 'ImportIndexEntry constructions governed by an is_definition flag', n_flag, 1)
 
 
+def r13_positions_have_one_unit(ctx, rid='C02.R13', lead=''):
+    ctx.rule(rid, lead + 'P9 writer/reader agreement on a unit: `RoutePath::parse` records where each `{parameter}` starts and ends; `PathRouter::assign_fallbacks` '
+             'compares those positions with the length of the prefix to decide whether a prefix ends with a parameter (and cuts the parameter off). Both sides '
+             'count in the same unit: positions drawn from `chars().enumerate()` go with `chars().count()`, positions drawn from `char_indices()` go with '
+             '`len()`. With mixed units a prefix such as `/café/{id}` is not recognised as ending with a parameter, pavexc synthesises '
+             '`/café/{id}{*catch_all}` and rejects a valid application.')
+    fb = ctx.fb
+    W = 'pavexc::compiler::analyses::route_path::RoutePath::parse'
+    wb = [b for b in fb.bodies_of_item('pavexc', W) if not b.is_promoted]
+    if not ctx.need(rid, 'bodies of RoutePath::parse', wb):
+        return
+    wnames = {(callee(t) or '').split('::')[-1].split('<')[0] for b in wb for _, t in b.calls()}
+    w_unit = 'byte' if 'char_indices' in wnames else ('char' if {'chars', 'enumerate'} <= wnames else None)
+    ctx.ob(rid, 'writer-unit', w_unit is not None, wb[0].loc(), 'RoutePath::parse draws positions from %s: unit = %s' % (
+        sorted(wnames & {'chars', 'enumerate', 'char_indices', 'bytes', 'len', 'len_utf8'}), w_unit))
+    n = 0
+    for b in fb.bodies('pavexc'):
+        if b.is_promoted or b.nroot == W or not any('PathParameterDetails' in ty for ty in b.locals):
+            continue
+        defs = Defs(b)
+
+        def field_of(o):
+            pl = op_place(o)
+            if pl is None:
+                return None
+            if pl.get('p'):
+                return pl['p'][-1]
+            for _, _, nd in defs.full.get(pl['l'], []):
+                rv = nd.get('rv')
+                if rv and rv['k'] in ('use', 'cfd') and op_place(rv.get('op', {})) is not None and op_place(rv['op']).get('p'):
+                    return op_place(rv['op'])['p'][-1]
+            return None
+        for bb, j, st in b.all_assigns():
+            rv = st['rv']
+            if rv['k'] != 'bin' or rv['bop'] not in ('Eq', 'Ne', 'Lt', 'Le', 'Gt', 'Ge'):
+                continue
+            fa, fb_ = field_of(rv['a']), field_of(rv['b'])
+            if fa in ('f:end', 'f:start'):
+                other = rv['b']
+            elif fb_ in ('f:end', 'f:start'):
+                other = rv['a']
+            else:
+                continue
+            pl = op_place(other)
+            names = set()
+            if pl is not None:
+                sl, _ = backward_slice(b, pl['l'], defs)
+                names = {(x or '').split('::')[-1].split('<')[0] for x, _, _ in slice_calls(sl)}
+            r_unit = 'char' if {'chars', 'count'} <= names else ('byte' if 'len' in names and 'chars' not in names else None)
+            n += 1
+            ctx.ob(rid, 'reader-unit|%s' % b.nid.replace(PX, '').replace('pavexc::', ''), r_unit is not None and r_unit == w_unit, b.loc(bb, st),
+                   'a recorded position is compared with a value computed through %s: unit = %s; the writer counts in %s' % (
+                       sorted(names & {'chars', 'count', 'len', 'char_indices', 'bytes'}), r_unit, w_unit))
+    ctx.floor(rid, 'comparisons of a recorded parameter position with a length', n, 1)
+
+
 def check(ctx):
+    r13_positions_have_one_unit(ctx)
     r12_definition_sites_are_recorded(ctx)
     r1_exemptions_first(ctx)
     r2_control_flow_test(ctx)
